@@ -221,6 +221,10 @@ class Call:
             self.contrast_matrix = treatment.code_without_intercept(self.levels)
 
         self.value = self.contrast_matrix.matrix[x.codes]
+        if (x.codes == -1).any():
+            # A missing value (kept with na_action="pass") is none of the levels
+            self.value = self.value.astype(float)
+            self.value[x.codes == -1] = np.nan
         self.spans_intercept = spans_intercept
 
     def eval_categorical_box(self, box, spans_intercept):
